@@ -298,6 +298,19 @@ def rule_mix(ctx: Ctx) -> RuleReport:
     for fn, left in (("_shift_rows", True), ("_inv_shift_rows", False)):
         fi = ctx.p.func(AES, fn)
         rep.unit(fi.key)
+        # the function moves bytes and computes nothing from them: interpreted over the 16 *positions* of the state (an opaque token per
+        # position; any arithmetic on a token is outside the interpreter's subset) it yields the permutation it applies to every state
+        perm = _permutation_of(ctx, fi)
+        if perm is not None:
+            want_perm = [(i + 4 * (i % 4)) % 16 if left else (i - 4 * (i % 4)) % 16 for i in range(16)]
+            if perm == "untouched":
+                rep.fail(Finding("C20-MIX", AES, fn, "the caller's state is not changed", f"{fn} computes the shifted state and binds it to its own parameter name (a plain assignment, not `state[:] = ...` or item assignments): the list the block function passed in stays as it was, so {'ShiftRows' if left else 'InvShiftRows'} is a no-op and every {'encryption' if left else 'decryption'} deviates from FIPS-197", line=fi.node.lineno))
+            elif perm == want_perm:
+                rep.ok({fn: "permutation of the 16 positions", "new[i] = old[...]": perm})
+            else:
+                wrong = [i for i in range(16) if perm[i] != want_perm[i]]
+                rep.fail(Finding("C20-MIX", AES, fn, f"positions {wrong} filled from {[perm[i] for i in wrong]}", f"{fn}: position i of the new state is taken from {perm}; FIPS-197 (column-major state, row r rotated {'left' if left else 'right'} by r) requires {want_perm}", line=fi.node.lineno))
+            continue
         loops = [n for n in fi.node.body if isinstance(n, ast.For)]
         if len(loops) != 1 or norm(loops[0].iter) != "range(1, 4)":
             raise AnalysisError(f"C20-MIX: {fn} is no longer one loop over rows 1..3")
@@ -329,6 +342,91 @@ def rule_mix(ctx: Ctx) -> RuleReport:
         else:
             rep.ok({fn: want})
     return rep
+
+
+class _Pos:
+    """opaque content of one state position"""
+    __slots__ = ("i",)
+
+    def __init__(self, i):
+        self.i = i
+
+
+def _permutation_of(ctx: Ctx, fi):
+    """[source position of new[i]] for a function that only moves state bytes; 'untouched' when the caller's list is not modified;
+    None when the function uses something outside the small subset interpreted here (the template comparison decides then)."""
+    from sa.engine.absinterp import Evaluator
+
+    class PE(Evaluator):
+        def stmt(self, m, st, env):
+            if isinstance(st, ast.Assign) and len(st.targets) == 1 and isinstance(st.targets[0], ast.Subscript):
+                self.steps += 1
+                t = st.targets[0]
+                box = self.expr(m, t.value, env)
+                v = self.expr(m, st.value, env)
+                if not isinstance(box, list):
+                    raise AnalysisError("perm: store into non-list")
+                if isinstance(t.slice, ast.Slice):
+                    lo = self.expr(m, t.slice.lower, env) if t.slice.lower else None
+                    hi = self.expr(m, t.slice.upper, env) if t.slice.upper else None
+                    if t.slice.step is not None:
+                        raise AnalysisError("perm: slice step")
+                    box[lo:hi] = list(v)
+                else:
+                    k = self.expr(m, t.slice, env)
+                    if not isinstance(k, int) or not -len(box) <= k < len(box):
+                        raise AnalysisError("perm: index")
+                    box[k] = v
+                return
+            return super().stmt(m, st, env)
+
+        def expr(self, m, e, env):
+            if isinstance(e, (ast.ListComp, ast.GeneratorExp)) and len(e.generators) == 1 and not e.generators[0].is_async:
+                g = e.generators[0]
+                it = self.expr(m, g.iter, env)
+                if not isinstance(it, (list, tuple)):
+                    raise AnalysisError("perm: comprehension source")
+                out = []
+                inner = dict(env)
+                for item in it:
+                    self.bind(g.target, item, inner)
+                    if all(self.truth(self.expr(m, c, inner)) for c in g.ifs):
+                        out.append(self.expr(m, e.elt, inner))
+                return out
+            if isinstance(e, ast.Name) and e.id not in env:
+                v = self.folder.fold(m, e)
+                if v is not UNKNOWN:
+                    return list(v) if isinstance(v, tuple) else v
+                # a module-level table computed by a comprehension: evaluated with the same subset
+                defs = [a.value for a in m.tree.body if isinstance(a, ast.Assign) and len(a.targets) == 1 and isinstance(a.targets[0], ast.Name) and a.targets[0].id == e.id]
+                if len(defs) == 1:
+                    return self.expr(m, defs[0], {})
+            return super().expr(m, e, env)
+
+        def callexpr(self, m, e, env):
+            d = dotted(e.func)
+            if d == "range" and not e.keywords:
+                a = [self.expr(m, x, env) for x in e.args]
+                if all(isinstance(x, int) and not isinstance(x, bool) for x in a) and 1 <= len(a) <= 3:
+                    return list(range(*a))
+            if d in ("list", "tuple") and len(e.args) == 1:
+                return list(self.expr(m, e.args[0], env))
+            return super().callexpr(m, e, env)
+
+    state = [_Pos(i) for i in range(16)]
+    try:
+        r = PE(ctx.p, ctx.folder).call(fi, [state])
+    except AnalysisError:
+        return None
+    except Exception:  # noqa: BLE001 -- an operation on a token: outside the subset
+        return None
+    if r is not None or len(state) != 16 or not all(isinstance(x, _Pos) for x in state):
+        return None
+    perm = [x.i for x in state]
+    if perm == list(range(16)):
+        rebinds = any(isinstance(a, ast.Assign) and any(isinstance(t, ast.Name) and t.id == fi.node.args.args[0].arg for t in a.targets) for a in ast.walk(fi.node))
+        return "untouched" if rebinds else perm
+    return perm
 
 
 def rule_key(ctx: Ctx) -> RuleReport:
